@@ -5,6 +5,7 @@ import math
 from builtins import isinstance as b_isinstance
 from collections.abc import Iterator
 from collections.abc import Iterable
+from enum import Enum
 from collections.abc import Mapping
 
 from .alias_tracker import _ALIAS_TRACKER
@@ -684,7 +685,7 @@ class Vector():
 		# Is the incoming value iterable?
 		is_seq_val = (
 			isinstance(value, Iterable)
-			and not isinstance(value, (str, bytes, bytearray))
+			and not isinstance(value, (str, bytes, bytearray, int, float, complex, Enum))
 		)
 
 		n = len(self)
@@ -912,7 +913,7 @@ class Vector():
 				raise ValueError(f"Length mismatch: {len(self)} != {len(other)}")
 			result_values = tuple(False if (x is None or y is None) else bool(op(x, y)) for x, y in zip(self, other, strict=True))
 			return Vector(result_values, dtype=DataType(bool, nullable=False))
-		if isinstance(other, Iterable) and not isinstance(other, (str, bytes, bytearray)):
+		if isinstance(other, Iterable) and not isinstance(other, (str, bytes, bytearray, int, float, complex, Enum)):
 			# Raise mismatched lengths
 			if len(self) != len(other):
 				raise ValueError(f"Length mismatch: {len(self)} != {len(other)}")
@@ -1013,7 +1014,7 @@ class Vector():
 							as_row=self._display_as_row)
 
 		# (a mapping is ONE operand - '%(a)s' % {'a': 1} - not a sequence of them)
-		if isinstance(other, Iterable) and not isinstance(other, (str, bytes, bytearray, Mapping)):
+		if isinstance(other, Iterable) and not isinstance(other, (str, bytes, bytearray, int, float, complex, Enum, Mapping)):
 			if len(self) != len(other):
 				raise ValueError(f"Length mismatch: {len(self)} != {len(other)}")
 			try:
@@ -1111,7 +1112,7 @@ class Vector():
 			return Vector(vals, dtype=infer_dtype(vals), name=None, as_row=self._display_as_row)
 		
 		# Scalar + Vector
-		if not isinstance(other, Iterable) or isinstance(other, (str, bytes, bytearray)):
+		if not isinstance(other, Iterable) or isinstance(other, (str, bytes, bytearray, int, float, complex, Enum)):
 			vals = []
 			for x in self:
 				if x is None:
@@ -1121,7 +1122,7 @@ class Vector():
 			return Vector(vals, dtype=infer_dtype(vals), name=None, as_row=self._display_as_row)
 		
 		# Iterable + Vector
-		if isinstance(other, Iterable) and not isinstance(other, (str, bytes, bytearray)):
+		if isinstance(other, Iterable) and not isinstance(other, (str, bytes, bytearray, int, float, complex, Enum)):
 			if len(self) != len(other):
 				raise ValueError(f"Length mismatch: {len(self)} != {len(other)}")
 			vals = []
@@ -1495,7 +1496,7 @@ class Vector():
 			# the appended values may be None or of another kind)
 			# (list(...): `t + ()` is t itself, and a vector built over the operand's own tuple would share its storage)
 			return Vector(list(self._underlying + other._underlying))
-		if isinstance(other, Iterable) and not isinstance(other, (str, bytes, bytearray)):
+		if isinstance(other, Iterable) and not isinstance(other, (str, bytes, bytearray, int, float, complex, Enum)):
 			return Vector(list(self._underlying + tuple(other)))
 		return Vector(self._underlying + (other,))
 
@@ -1512,7 +1513,7 @@ class Vector():
 			# (no dtype: two columns of unequal length do not make a Table but a vector whose
 			# cells are the two vectors - self's dtype would not describe them)
 			return Vector((self,) + (other,))
-		if isinstance(other, Iterable) and not isinstance(other, (str, bytes, bytearray)):
+		if isinstance(other, Iterable) and not isinstance(other, (str, bytes, bytearray, int, float, complex, Enum)):
 			return Vector([self, Vector(tuple(x for x in other))])
 		elif len(self) == 0:
 			# (the truth value of a Vector raises: test the length)
@@ -1524,7 +1525,7 @@ class Vector():
 		Handles: other << self (where other is not a Vector)
 		"""
 		# Convert other to Vector and concatenate with self
-		if isinstance(other, Iterable) and not isinstance(other, (str, bytes, bytearray)):
+		if isinstance(other, Iterable) and not isinstance(other, (str, bytes, bytearray, int, float, complex, Enum)):
 			# (list(...): `() + t` is t itself - never build the result over self's own tuple)
 			return Vector(list(tuple(other) + self._underlying),
 				None,  # other doesn't have a default element
@@ -1544,7 +1545,7 @@ class Vector():
 		# (a table on the right contributes its columns, as in Vector >> table - not itself as one column)
 		rest = self.cols() if self.ndims() == 2 else (self,)
 		# Convert other to Vector and combine column-wise
-		if isinstance(other, Iterable) and not isinstance(other, (str, bytes, bytearray)):
+		if isinstance(other, Iterable) and not isinstance(other, (str, bytes, bytearray, int, float, complex, Enum)):
 			return Vector((Vector(tuple(other)),) + rest,
 				None,
 				None,
@@ -1863,7 +1864,7 @@ class _Date(Vector):
 			if other.schema() is not None and other.schema().kind == datetime:
 				# (a <datetime> vector may still hold plain dates: both sides are compared as datetimes)
 				return Vector(tuple(False if (x is None or y is None) else bool(op(_at_midnight(x), _at_midnight(y))) for x, y in zip(self, other, strict=True)), dtype=DataType(bool))
-		elif isinstance(other, Iterable) and not isinstance(other, (str, bytes, bytearray)):
+		elif isinstance(other, Iterable) and not isinstance(other, (str, bytes, bytearray, int, float, complex, Enum)):
 			# Raise mismatched lengths
 			if len(self) != len(other):
 				raise ValueError(f"Length mismatch: {len(self)} != {len(other)}")
@@ -1921,7 +1922,7 @@ class _Date(Vector):
 
 	def __add__(self, other):
 		""" adding integers is adding days """
-		if isinstance(other, Iterable) and not isinstance(other, (Vector, str, bytes, bytearray, Mapping)):
+		if isinstance(other, Iterable) and not isinstance(other, (Vector, str, bytes, bytearray, int, float, complex, Enum, Mapping)):
 			# a plain sequence of day counts (list, tuple, range, deque, ...) is handled like a vector of them
 			other = list(other)
 			if other and all(y is None or (isinstance(y, int) and not isinstance(y, bool)) for y in other):
